@@ -2555,7 +2555,9 @@ class MultiUserChannelMatrixExtInt(  # pylint: disable=R0904
             # covariance matrix
             noise_var = self.noise_var
             for i, R_all_k_i in enumerate(R_all_k):
-                R_all_k_i += np.eye(self.Nr[i]) * noise_var
+                # Not in-place: R_all_k_i has an integer dtype when the
+                # channel and `pe` are integers
+                R_all_k[i] = R_all_k_i + np.eye(self.Nr[i]) * noise_var
 
         return R_all_k
 
